@@ -255,12 +255,51 @@ func runConfigs(cfg fw.Config, rec *fw.Rec, full, native bool, sampleEvery int, 
 	})
 }
 
+// multiCandidates: a guarded branch whose pattern matches in several ways - the guard is
+// offered the candidates and the first it accepts decides ("try each set of bindings").
+func multiCandidates(rec *fw.Rec) {
+	accept := func(v interface{}) *ref.Prog {
+		return &ref.Prog{Ops: []ref.Op{{Op: "ifeq", K: "?e", V: v, Then: []ref.Op{{Op: "set", K: "ok", V: true}}}}, Ret: "cond", CondKey: "ok"}
+	}
+	for _, native := range []bool{true, false} {
+		for _, want := range []interface{}{"q", "p", 2.0, "absent"} {
+			a := &ref.ASpec{Name: "multi", Nodes: map[string]*ref.ANode{
+				"start": {Branching: &ref.ABranching{Type: "message", Branches: []*ref.ABranch{
+					{HasPattern: true, Pattern: map[string]interface{}{"l": []interface{}{"?e"}}, Guard: accept(want), Target: "chosen"},
+					{Target: "fallback"}}}},
+				"viaBindings": {Action: &ref.Prog{Ops: []ref.Op{{Op: "del", K: "ok"}}, Ret: "same"}, Branching: &ref.ABranching{Type: "bindings", Branches: []*ref.ABranch{
+					{HasPattern: true, Pattern: map[string]interface{}{"log": []interface{}{"?e"}}, Guard: accept(want), Target: "chosen"},
+					{HasPattern: true, Pattern: map[string]interface{}{"?k": "?e"}, Guard: accept(want), Target: "chosenByProperty"},
+					{Target: "fallback"}}}},
+				"chosen": {}, "chosenByProperty": {}, "fallback": {},
+			}}
+			spec, err := a.Compiled(native, ref.NativeNilErr)
+			if err != nil {
+				rec.Inconclusive("multi-candidate spec: " + err.Error())
+				return
+			}
+			env := ref.Env{Native: native}
+			markers := ref.SpecMarkers(a)
+			for _, l := range [][]interface{}{{"p", "q"}, {"q", "p", "r"}, {1.0, 2.0, 3.0, "q"}, {"p"}, {}} {
+				if ok, _ := checkStep(rec, "multi", a, spec, env, markers, ref.AState{Node: "start", Bs: map[string]interface{}{}}, map[string]interface{}{"l": l, "uid": "m"}, nil); !ok {
+					return
+				}
+				if ok, _ := checkStep(rec, "multi", a, spec, env, markers, ref.AState{Node: "viaBindings", Bs: map[string]interface{}{"log": l, "x": "q", "y": 2.0}}, nil, nil); !ok {
+					return
+				}
+			}
+		}
+	}
+}
+
 // randomSpecs walks random multi-node specs and checks every stride.
 func randomSpecs(cfg fw.Config, rec *fw.Rec, n int) {
 	fw.Parallel(cfg.Workers, n, func(w, i int) {
 		r := cfg.Rng("c04-rand", i)
 		u := &gen.Uid{Prefix: fmt.Sprintf("s%d_", i)}
-		a := gen.GenSpec(r, gen.SpecOpts{MaxNodes: 3, ActionWithMessageBranching: true, Prog: gen.ProgOpts{Fail: true, BadRet: true, Emit: true}}, u)
+		// every third spec may guard a branch whose pattern can match in several ways: the
+		// guard then chooses among the candidates (any order; all outcomes are acceptable)
+		a := gen.GenSpec(r, gen.SpecOpts{MaxNodes: 3, ActionWithMessageBranching: true, GuardMulti: i%3 == 0, Prog: gen.ProgOpts{Fail: true, BadRet: true, Emit: true}}, u)
 		native := i%2 == 0
 		spec, err := a.Compiled(native, ref.NativeNilErr)
 		if err != nil {
@@ -274,7 +313,7 @@ func randomSpecs(cfg fw.Config, rec *fw.Rec, n int) {
 		ok := true
 		steps := 0
 		for m := 0; m < 4 && ok; m++ {
-			var pending interface{} = gen.GenMessage(r, u.Next("m"), names)
+			var pending interface{} = gen.GenAnyMessage(r, u.Next("m"), names)
 			for k := 0; k < 6 && ok; k++ {
 				var stride *core.Stride
 				ok, stride = checkStep(rec, "random", a, spec, env, markers, st, pending, nil)
@@ -303,7 +342,7 @@ func randomSpecs(cfg fw.Config, rec *fw.Rec, n int) {
 
 func Run(cfg fw.Config, rec *fw.Rec) {
 	rec.Rule = "enumerated single-node configurations (action x branching type x branch lists of length 0-2 over a pattern/guard/target vocabulary x 4 error settings) x 5 states x 5 pending values, each compiled with native and with ECMAScript actions, Spec.Step compared with an executable reference of the documented rule; plus every stride of random 3-node specs; non-trivial = configuration (or random spec) on which every compared step agreed; distinct by configuration"
-	rec.Required = []string{"configs_checked_reduced-native", "configs_checked_reduced-ecma", "random_specs_walked", "clause_branch taken", "clause_guarded branch taken", "clause_no branch applies", "clause_action failed; error returned", "clause_action failed; action error node", "clause_unknown node", "clause_message branching without a pending message"}
+	rec.Required = []string{"configs_checked_reduced-native", "configs_checked_reduced-ecma", "random_specs_walked", "clause_branch taken", "clause_guarded branch taken", "clause_guard chose among several candidates", "clause_no branch applies", "clause_action failed; error returned", "clause_action failed; action error node", "clause_unknown node", "clause_message branching without a pending message"}
 	rec.Assume = []string{"the reference transcribes README 'Processing', doc/by-example.md and the doc comments of core/step.go, core/spec.go; where code alone defines behaviour (error + error-node state together, exact lastBindings content) the comparison is loose", "Spec.Step inspects only the current node and spec-level settings, so single-node configurations cover specs of any size for one step"}
 	// reduced vocabulary: complete enumeration, native; ECMAScript complete in thorough, 1/8 sample in quick
 	runConfigs(cfg, rec, false, true, 1, "reduced-native")
@@ -311,6 +350,7 @@ func Run(cfg fw.Config, rec *fw.Rec) {
 	// full vocabulary: native complete in thorough (1/10 in quick); ECMAScript sampled
 	runConfigs(cfg, rec, true, true, cfg.Pick(10, 1), "full-native")
 	runConfigs(cfg, rec, true, false, cfg.Pick(400, 40), "full-ecma")
+	multiCandidates(rec)
 	randomSpecs(cfg, rec, cfg.Pick(20000, 300000))
 	rec.SetExtra("exhaustive_subspace", "reduced vocabulary (4 patterns x 4 guards x 2 targets, lists <= 2, 5 actions, 4 settings, 5 states, 5 pendings) enumerated completely with native actions in both tiers and with ECMAScript actions in the thorough tier")
 }
